@@ -101,10 +101,14 @@ def r09_3(ctx: Ctx) -> None:
     checks = [c for c in q.calls(f) if attr_tail(c) == "_check"]
     inloop = [c for c in checks if q.enclosing_loops(f, c)]
     after = [c for c in checks if not q.enclosing_loops(f, c)]
-    ctx.floor("R09.3", len(inloop), 1, "_check call inside the member loop")
-    acc = norm(inloop[0].args[1])
     delivering = [c for f2, c in shared.calls_to(ctx, "py7zr:Worker.decompress") if f2 is f]
     ctx.floor("R09.3", len(delivering), 1, "delivering decompress calls")
+    if not inloop:
+        for d in delivering:
+            ctx.fail("R09.3", f, d, "no decode-and-discard of skipped predecessors precedes this delivering decompress inside the member loop: a selected member after "
+                                   "unselected ones in a solid stream is decoded from the wrong stream position")
+        return
+    acc = norm(inloop[0].args[1])
     body = next(s for s in it.succ if s.kind == "body")
     for d in delivering:
         dn = q.node_for(f, d)
